@@ -4,6 +4,7 @@ package chainmon
 
 import (
 	"fmt"
+	"strings"
 
 	"github.com/lavanet/lava/v5/utils/sigs"
 	pairingtypes "github.com/lavanet/lava/v5/x/pairing/types"
@@ -222,6 +223,7 @@ type badgeInfo struct {
 	dev   sigs.Account
 	chain string
 	prov  string // provider the badge is mostly used with (so that the allocation is actually approached)
+	upper bool   // relays of this badge spell the provider in uppercase
 }
 
 var _ = badgeInfo{}
@@ -247,7 +249,7 @@ func (s *Sim) opBadgeRelay() {
 			panic(err)
 		}
 		b.ProjectSig = sig
-		bi = &badgeInfo{badge: b, user: user, dev: dev, chain: vrandPick(s, s.Specs)}
+		bi = &badgeInfo{badge: b, user: user, dev: dev, chain: vrandPick(s, s.Specs), upper: s.R.Intn(3) == 0}
 		s.badges = append(s.badges, bi)
 		if len(s.badges) > 12 {
 			s.badges = s.badges[1:]
@@ -275,6 +277,9 @@ func (s *Sim) opBadgeRelay() {
 		cu = uint64(1 + s.R.Intn(int(bi.badge.CuAllocation)))
 	}
 	rs := s.newSession(bi.user, prov, bi.chain, int64(bi.badge.Epoch), cu)
+	if bi.upper {
+		rs.Provider = strings.ToUpper(prov) // the all-uppercase bech32 spelling of the same provider address
+	}
 	b := *bi.badge
 	rs.Badge = &b
 	variant := s.R.Intn(10)
